@@ -180,11 +180,19 @@ def check_render(ctx, recipes, n_place, lib_prefix, include_version, rng):
     head = m.group(1)
     marker = '<meta charset="utf-8"/>'
     head = head[head.index(marker) + len(marker):]
+    if not deps and inserted != "":
+        ctx.violation("placeholder-not-replaced", "with no dependencies the placeholder must be replaced by nothing, found %r" % inserted[:80], wit)
+        return False
     try:
-        a, b = head_tokens(inserted), head_tokens(head)
-    except tokenizer.Forged as f:
+        b = head_tokens(head)
+    except tokenizer.Forged:
         ctx.count("untokenizable_heads")
         return True
+    try:
+        a = head_tokens(inserted)
+    except tokenizer.Forged as f:
+        ctx.violation("inserted-head-markup-differs", "markup inserted at the placeholder is not what HTMLDocument puts in <head>: %s" % f, dict(wit, inserted=inserted[:800]))
+        return False
     if a != b:
         ctx.violation("inserted-head-markup-differs", "markup inserted at the placeholder differs from HTMLDocument's head markup", dict(wit, inserted=inserted[:800], head=head[:800]))
         return False
